@@ -78,18 +78,13 @@ Theorem C05_relational : forall d op x y st, model_relop d op x y st = spec_relo
 Proof. exact model_relop_is_spec. Qed.
 Print Assumptions C05_relational.
 
-(* 11.8.5 step 4, the string case: Go's < on UTF-8 bytes is the code-point order of
-   the decoded strings, for all strings of UTF-16 units ... *)
-Theorem C05_string_order_is_codepoint_order : forall a b, Forall unit_ok a -> Forall unit_ok b ->
-  m_str_lt a b = units_lt (code_points a) (code_points b).
-Proof. exact str_lt_is_codepoint_order. Qed.
-Print Assumptions C05_string_order_is_codepoint_order.
-
-(* ... hence the ES5 code-unit order on all strings without a high surrogate
-   (C05_strcmp_refuted: a surrogate pair against U+E000..U+FFFF breaks it) *)
-Theorem C05_relational_strings : forall a b, Forall no_high a -> Forall no_high b ->
-  m_str_lt a b = units_lt a b.
-Proof. exact str_lt_bmp. Qed.
+(* 11.8.5 step 4, the string case: calculateLessThan's loop over the UTF-16 code units
+   (skip the common prefix, then compare the first differing units or the lengths) is the
+   code-unit comparison of the clause, for all strings; with C05_relational, < > <= >= of
+   the otto dialect are the ES5 operators outright.  (Before /repo commit b6ed2ef otto
+   compared UTF-8 bytes and a surrogate pair against U+E000..U+FFFF came out reversed.) *)
+Theorem C05_relational_strings : forall a b, m_str_lt a b = units_lt a b.
+Proof. exact str_lt_is_units_lt. Qed.
 Print Assumptions C05_relational_strings.
 
 (* 11.5.2: evaluateDivide's cascade of special cases is IEEE-754 division on all pairs of doubles *)
@@ -115,10 +110,9 @@ Theorem C05_tonumber_hex_big_refuted :
 Proof. vm_compute. split; reflexivity. Qed.
 Print Assumptions C05_tonumber_hex_big_refuted.
 
-(* "￿" < "𐀀" *)
-Theorem C05_strcmp_refuted : exists a b, m_str_lt a b <> units_lt a b.
-Proof. exists [0xFFFF], [0xD800; 0xDC00]. vm_compute. discriminate. Qed.
-Print Assumptions C05_strcmp_refuted.
+(* "\uFFFF" < "\uD800\uDC00" is false by code units: the former witness of C05-strcmp *)
+Example C05_strcmp_witness : m_str_lt [0xFFFF] [0xD800; 0xDC00] = false /\ m_str_lt [0xD800; 0xDC00] [0xFFFF] = true.
+Proof. vm_compute. split; reflexivity. Qed.
 
 (* var b = 2, a = {valueOf: function(){ b = 10; return 1 }}; a + b: GetValue(b) comes before
    ToPrimitive(a) (ES5 11.6.1; otto since commit 0c8f777): both dialects give 3 on the former witness *)
@@ -190,9 +184,6 @@ Example C05_instanceof_bound_witness :
   run spec_d [proto91] [] e = Some (0, OP (PBool true), [], []).
 Proof. vm_compute. split; reflexivity. Qed.
 
-Example C05_strings_met :
-  Forall no_high [0x61; 0xFFFF; 0xE9] /\ Forall unit_ok [0xD800; 0xDC00] /\ code_points [0xD800; 0xDC00] = [0x10000].
-Proof. repeat split; try (repeat constructor; vm_compute; intuition discriminate). Qed.
 Example C05_spec_samples :
   string_to_number [32; 48; 120; 49; 70; 10] = NLVal 0x403F000000000000 /\          (* " 0x1F\n" -> 31 *)
   number_to_string 0x3FB999999999999A = Some [48; 46; 49] /\                        (* 0.1 *)
